@@ -1724,7 +1724,10 @@ def gen_history(rng, hist, jit=False):
         gi = 0 if i == 0 else rng.choice([0, 0, 1])
         ops.append({"op": "field", "name": f"f{i}", "grid": gi, "rank": 0, "seed": seed()})
         fields.append((f"f{i}", gi))
-    theme = rng.choice(["operator", "operator", "ghost", "interp", "interp", "pde", "pde", "pde_const", "solve", "field_op", "nobc", "diffusion"])
+    theme = rng.choice(["operator", "operator", "ghost", "interp", "interp", "pde", "pde", "pde_const", "solve", "field_op", "nobc", "diffusion",
+                        "pde_coll"])
+    if theme in ("interp", "pde", "pde_const") and not jit and rng.random() < 0.15:
+        ops[0]["complex"] = True  # a complex-valued state/field (the dtype is part of `state.attributes` and of the operator keys)
     hist("history-theme", theme + ("/jit" if jit else ""))
     backends = ["numba", "numba", "scipy"] if not jit else ["numba"]
 
@@ -1846,6 +1849,45 @@ def gen_history(rng, hist, jit=False):
                             "solver": rng.choice(["euler", "runge-kutta"] if not jit else ["euler"])})
             else:
                 ops.append({"op": rng.choice(["rate", "rhs"]), "pde": pname, "state": st, "backend": rng.choice(["numpy", "numba"])})
+    elif theme == "pde_coll":
+        # a PDE with two variables on a FieldCollection state: `PDE._cache` is keyed by the attributes of the state
+        # (a collection and a single field, collections of different composition) and per backend
+        gi = fields[0][1]
+        gd = grids[gi]
+        ops.append({"op": "field", "name": "g0", "grid": gi, "rank": 0, "seed": seed()})
+        ops.append({"op": "field", "name": "g1", "grid": gi, "rank": 0, "seed": seed()})
+        ops.append({"op": "collection", "name": "s0", "fields": ["g0", "g1"], "copy": True})
+        ops.append({"op": "collection", "name": "s1", "fields": ["g1", "g0"], "copy": True})
+        bc = gen_bc(rng, gd, 0)
+        rhs2 = rng.choice([{"u": "laplace(u) - v", "v": "u + laplace(v)"}, {"u": "laplace(v)", "v": "gradient_squared(u) - v"},
+                           {"u": "v", "v": "laplace(u + v)"}])
+        ops.append({"op": "pde", "name": "p0", "rhs": rhs2, "bc": bc, "consts": {}})
+        be1, be2 = (rng.choice(["numpy", "numba"]) for _ in range(2))
+        if jit:
+            be1 = "numpy"  # at most one compilation of the two-variable rhs per compiled history
+        ops.append({"op": rng.choice(["rate", "rhs"]), "pde": "p0", "state": "s0", "backend": be1})
+        for _ in range(rng.randint(0, 2)):
+            r = rng.random()
+            if r < 0.4:
+                ops.append({"op": "write", "field": rng.choice(["g0", "g1"]), "seed": seed()})
+            elif r < 0.7:
+                # the one-variable twin of the PDE on a member field
+                ops.append({"op": "pde", "name": f"q{len(ops)}", "rhs": {"u": "laplace(u)"}, "bc": bc, "consts": {}})
+                ops.append({"op": "rate", "pde": ops[-1]["name"], "state": "g0", "backend": "numpy"})
+            else:
+                ops.append(filler())
+        r = rng.random()
+        if r < 0.4:
+            pname, st = "p0", rng.choice(["s0", "s1"])
+        else:
+            bc2, v = vary_bc(rng, gd, 0, bc)
+            hist("history-variant", v)
+            ops.append({"op": "pde", "name": "p1", "rhs": rhs2, "bc": bc2, "consts": {}})
+            pname, st = "p1", rng.choice(["s0", "s1"])
+        if rng.random() < 0.25 and not jit:
+            ops.append({"op": "solve", "pde": pname, "state": st, "t_range": 0.02, "dt": 0.01, "backend": be2, "solver": "euler"})
+        else:
+            ops.append({"op": rng.choice(["rate", "rhs"]), "pde": pname, "state": st, "backend": be2})
     elif theme == "field_op":
         f, gi = fields[0]
         gd = grids[gi]
